@@ -62,7 +62,7 @@ fn oracle_application(input: &[u8]) -> Option<(usize, usize)> {
     Some((l1, l2))
 }
 
-fn application_body<const N: usize>() {
+fn application_body<const N: usize, const ENC: bool>() {
     let buf: [u8; N] = kani::any();
     let len: usize = kani::any();
     kani::assume(len <= N);
@@ -112,19 +112,22 @@ fn application_body<const N: usize>() {
 
             // re-encoding reproduces the consumed bytes (up to padding)
             assert!(v.mls_encoded_len() == consumed);
-            let mut out = Vec::new();
-            v.mls_encode(&mut out).unwrap();
-            assert!(out.len() == consumed);
-            let mut i = 0;
-            while i < consumed {
-                assert!(out[i] == input[i]);
-                i += 1;
+            if ENC {
+                let mut out = Vec::with_capacity(N);
+                v.mls_encode(&mut out).unwrap();
+                assert!(out.len() == consumed);
+                let mut i = 0;
+                while i < consumed {
+                    assert!(out[i] == input[i]);
+                    i += 1;
+                }
             }
 
             kani::cover!(l1 == 3 && l2 == 2 && len == N); // data, signature and padding
             kani::cover!(l1 == 0 && l2 == 0 && len == 2); // minimal message, no padding
             kani::cover!(consumed == len && len == N); // no padding at full length
-            core::mem::drop(v);
+            // skip the drop glue of Content (all of Proposal / Commit / LeafNode): not part of the contract
+            core::mem::forget(v);
         }
     }
     kani::cover!(expect.is_none() && len == N);
@@ -134,14 +137,21 @@ fn application_body<const N: usize>() {
 #[kani::unwind(12)]
 #[kani::stub(zeroize::optimization_barrier, noop_barrier)]
 fn c03_private_content_application_bounded_10() {
-    application_body::<10>();
+    application_body::<10, true>();
 }
 
 #[kani::proof]
 #[kani::unwind(8)]
 #[kani::stub(zeroize::optimization_barrier, noop_barrier)]
 fn c03_tmp_application_bounded_5() {
-    application_body::<5>();
+    application_body::<5, false>();
+}
+
+#[kani::proof]
+#[kani::unwind(8)]
+#[kani::stub(zeroize::optimization_barrier, noop_barrier)]
+fn c03_tmp_application_enc_bounded_5() {
+    application_body::<5, true>();
 }
 
 /// Focused restatement of the padding rule alone: take ANY accepted buffer and flip ANY
